@@ -126,7 +126,7 @@ func DiffDigests(want, got map[string]string) []string {
 
 // Config of one end-to-end run.
 type Config struct {
-	Transport  string        `json:"transport"` // "mock" (vnet, streams visible on open) | "vquic" (vnet, QUIC visibility, seeded arrival order) | "quic" (real loopback)
+	Transport  string        `json:"transport"` // "mock" (vnet, streams visible on open) | "vquic" (vnet, QUIC visibility, seeded arrival order) | "vlag" (as vquic, data streams lag behind the control stream) | "quic" (real loopback)
 	Conns      int           `json:"conns"`
 	Streams    int           `json:"streams"`
 	ChunkSize  uint32        `json:"chunk"`
@@ -178,9 +178,9 @@ func openConns(cfg Config) (*connSet, error) {
 	var sc, rc []transfer.Conn
 	var cleanups []func()
 	switch cfg.Transport {
-	case "mock", "vquic":
+	case "mock", "vquic", "vlag":
 		for i := 0; i < n; i++ {
-			p := vnet.NewPair(vnet.Options{Mock: cfg.Transport == "mock", Hold: cfg.Transport == "vquic", AutoRelease: cfg.Transport == "vquic", Seed: cfg.Seed + int64(i)})
+			p := vnet.NewPair(vnet.Options{Mock: cfg.Transport == "mock", Hold: cfg.Transport != "mock", AutoRelease: cfg.Transport != "mock", LagData: cfg.Transport == "vlag", Seed: cfg.Seed + int64(i)})
 			cs.pairs = append(cs.pairs, p)
 			sc = append(sc, p.End(vnet.A))
 			rc = append(rc, p.End(vnet.B))
@@ -316,6 +316,7 @@ func ExpectedDigest(srcRoot string, m manifest.Manifest, cfg Config) (map[string
 func Run(cfg Config, srcRoot, outDir string) (Outcome, error) {
 	var out Outcome
 	t0 := time.Now()
+	traceReset(cfg.Resume)
 	m, sendRoot, err := Scan(srcRoot, cfg.ScanPaths)
 	if err != nil {
 		return out, fmt.Errorf("scan: %w", err)
@@ -485,6 +486,115 @@ watch:
 	out.TreeEqual = len(out.Diffs) == 0
 	out.WallMs = time.Since(t0).Milliseconds()
 	return out, nil
+}
+
+// ---- in-process hook traces for SessionTrace.tla -------------------------------------------------
+// When a sink is set, Run writes a `trace.reset` line at the start of every transfer and TraceEvent
+// (called from the drivers' hook handler) appends one normalised line per hook point: 64-bit file
+// keys become small per-transfer ids, other numbers are capped for TLC's 32-bit integers.
+
+var (
+	traceMu      sync.Mutex
+	traceSink    io.Writer
+	traceKeys    map[uint64]int
+	traceN       int
+	traceBase    int
+	traceMuted   bool
+	traceSkipped int
+)
+
+// TraceSkipped reports how many transfers were not traced because goroutines of an earlier one lingered.
+func TraceSkipped() int {
+	traceMu.Lock()
+	defer traceMu.Unlock()
+	return traceSkipped
+}
+
+// SetTraceSink directs the hook trace of the following transfers to w (nil: off).
+func SetTraceSink(w io.Writer) {
+	traceMu.Lock()
+	traceSink, traceKeys = w, map[uint64]int{}
+	traceBase = runtime.NumGoroutine() + 1
+	traceMu.Unlock()
+}
+
+func traceReset(resume bool) {
+	traceMu.Lock()
+	sinkOn := traceSink != nil
+	base := traceBase
+	traceMu.Unlock()
+	if !sinkOn {
+		return
+	}
+	// goroutines of the previous transfer that are still winding down would write their events into
+	// this transfer's segment: wait for them; if they do not go away, this transfer is not traced
+	_ = base
+	quiet := false
+	for i := 0; i < 60; i++ {
+		if lingeringTransferGoroutines() == 0 {
+			quiet = true
+			break
+		}
+		time.Sleep(5 * time.Millisecond)
+	}
+	traceMu.Lock()
+	defer traceMu.Unlock()
+	traceMuted = !quiet
+	if traceMuted {
+		traceSkipped++
+		if traceSkipped == 1 && os.Getenv("VERIF_TRACE_DEBUG") != "" {
+			buf := make([]byte, 1<<18)
+			n := runtime.Stack(buf, true)
+			fmt.Fprintf(os.Stderr, "trace muted: %d goroutines (base %d)\n%s\n", runtime.NumGoroutine(), base, buf[:n])
+		}
+		return
+	}
+	traceKeys = map[uint64]int{}
+	traceN++
+	a := 0
+	if resume {
+		a = 1
+	}
+	fmt.Fprintf(traceSink, "{\"pt\":\"trace.reset\",\"a\":%d,\"b\":0,\"s\":\"inproc\",\"sess\":%d}\n", a, traceN)
+}
+
+// lingeringTransferGoroutines counts goroutines that still execute transfer code (the package's
+// permanent read pool excluded).
+func lingeringTransferGoroutines() int {
+	buf := make([]byte, 1<<20)
+	n := runtime.Stack(buf, true)
+	c := 0
+	for _, g := range strings.Split(string(buf[:n]), "\n\n") {
+		if strings.Contains(g, "sheerbytes/internal/transfer.") && !strings.Contains(g, "newReadPool") {
+			c++
+		}
+	}
+	return c
+}
+
+// TraceEvent appends one hook event to the sink.
+func TraceEvent(name string, a, b uint64, s string) {
+	traceMu.Lock()
+	defer traceMu.Unlock()
+	if traceSink == nil || traceMuted {
+		return
+	}
+	if strings.HasPrefix(name, "recv.chunk") || name == "recv.filebegin" || name == "recv.finalize" ||
+		(strings.HasPrefix(name, "send.") && name != "send.worker.take") {
+		id, ok := traceKeys[a]
+		if !ok {
+			id = len(traceKeys) + 1
+			traceKeys[a] = id
+		}
+		a = uint64(id)
+	}
+	if a > 1<<30 {
+		a = 1 << 30
+	}
+	if b > 1<<30 {
+		b = 1 << 30
+	}
+	fmt.Fprintf(traceSink, "{\"pt\":%q,\"a\":%d,\"b\":%d,\"s\":%q,\"sess\":%d}\n", name, a, b, s, traceN)
 }
 
 // HookTicks counts verifhook events (incremented by the drivers' hook handler); part of the
